@@ -597,7 +597,8 @@ class World:
             self.probes['rewrite_started_' + ('own_tx' if own else 'in_block')] += 1
         elif kind == 'rw_commit':
             self.note_migration_end(cur.rw)
-            m.cur = cur._replace(schema=cur.rw.start, rw=None)
+            # the schema the block started from, with the rewritten migration log ('@' per recorded migration)
+            m.cur = cur._replace(schema=(cur.rw.start[0] + '@' * cur.rw.nmig, cur.rw.start[1]), rw=None)
             self.probes['rewrite_committed'] += 1
             if cur.rw.own_tx:
                 m.base = m.cur
